@@ -466,6 +466,9 @@ pub fn run_campaign<P: Property>(p: &P, tier: Tier, seed: u64) -> RunOutcome {
 /// Strict re-execution of one stored case (replay files and corpus entries).
 pub fn replay_case<P: Property>(p: &P, case_json: &Value, tier: Tier, strict: bool) -> Result<Report, String> {
     let case: P::Case = serde_json::from_value(case_json.clone()).map_err(|e| format!("cannot decode case: {}", e))?;
+    // VERIF_REPLAY_LENIENT=1: replay with the known-finding exclusions of a campaign (to see whether a saved case
+    // falls into an excluded class); the default is strict
+    let strict = strict && std::env::var("VERIF_REPLAY_LENIENT").is_err();
     let mut ctx = Ctx {
         dir: scratch_dir(&format!("{}-replay", p.id())),
         strict,
@@ -715,4 +718,49 @@ pub fn sample_strategy<T: std::fmt::Debug>(strategy: &BoxedStrategy<T>, seed: u6
     let cfg = Config { rng_seed: RngSeed::Fixed(seed), failure_persistence: None, ..Config::default() };
     let mut runner = TestRunner::new(cfg);
     (0..n).filter_map(|_| strategy.new_tree(&mut runner).ok().map(|t| t.current())).collect()
+}
+
+/// Silences the process' standard output while a guard is alive (the library's debug mode prints lattice dumps
+/// there). Reference counted: shards may hold guards at the same time; nothing of the harness prints to stdout
+/// while a campaign runs.
+pub mod quiet_stdout {
+    use std::io::Write;
+    use std::sync::Mutex;
+
+    static STATE: Mutex<(usize, i32)> = Mutex::new((0, -1));
+
+    pub struct Guard;
+
+    pub fn enter() -> Guard {
+        let mut st = STATE.lock().unwrap_or_else(|e| e.into_inner());
+        if st.0 == 0 {
+            let _ = std::io::stdout().flush();
+            unsafe {
+                let saved = libc::dup(1);
+                let null = libc::open(b"/dev/null\0".as_ptr() as *const libc::c_char, libc::O_WRONLY);
+                if saved >= 0 && null >= 0 {
+                    libc::dup2(null, 1);
+                    libc::close(null);
+                    st.1 = saved;
+                }
+            }
+        }
+        st.0 += 1;
+        Guard
+    }
+
+    impl Drop for Guard {
+        fn drop(&mut self) {
+            let mut st = STATE.lock().unwrap_or_else(|e| e.into_inner());
+            st.0 -= 1;
+            if st.0 == 0 && st.1 >= 0 {
+                let _ = std::io::stdout().flush();
+                unsafe {
+                    libc::dup2(st.1, 1);
+                    libc::close(st.1);
+                }
+                st.1 = -1;
+            }
+        }
+    }
 }
